@@ -7,6 +7,7 @@ C18 model of libs/p2p/conn (core Lean only), as the code is today.
 (b) mux     — `MConnection`: per-channel send queue and `sending` remainder, `nextPacketMsg` (EOF on the last fragment),
     a *schedule* (`List Chan`) standing for the choices of `sendPacketMsg` (the least recentlySent/priority rule is one
     such schedule), `recvPacketMsg` (capacity check, append, deliver on EOF = 1).
+(d) switch   — `Switch.addPeer`: admission of an authenticated connection under the identity its NodeInfo claims.
 (c) handshake — `MakeSecretConnection` over an ideal signature scheme: ephemeral keys, challenge = sorted pair,
     signature by the long-term key, rejection of a nil key and of our own key, verification against the presented key.
 -/
@@ -254,5 +255,69 @@ def establish (myKey : Key) (myEph : Eph) (remEph : Option Eph) (auth : Option A
   match respond myKey myEph remEph with
   | none => none
   | some (c, _) => finish myKey c auth
+
+/-! ## (d) switch admission (libs/p2p/switch.go addPeer behind newInboundPeerConn) -/
+
+abbrev NodeId := Nat
+
+/-- node ID = hex(Keccak256(public key)); injective in the term model (collision resistance) -/
+def idOf (k : Key) : NodeId := k
+
+/-- the self-reported NodeInfo as far as `addPeer` looks at it -/
+structure NodeInfoM where
+  pubKey : Key
+  /-- `CachePeerID` as received: an ordinary serialised field.  `addPeer` clears it right after the handshake (faaf6b9), so
+  `ID()` is always recomputed from `PubKey` and this input decides nothing -/
+  cacheId : Option NodeId := none
+  /-- `Validate()` -/
+  valid : Bool := true
+  /-- `CompatibleWith` -/
+  compatible : Bool := true
+deriving Repr, DecidableEq
+
+structure PeerM where
+  id : NodeId
+  /-- the key the peer's SecretConnection authenticated (`RemotePubKey`) -/
+  authKey : Key
+deriving Repr, DecidableEq
+
+structure SwitchState where
+  self : Key
+  peers : List PeerM := []
+  blacklist : List NodeId := []
+deriving Repr, DecidableEq
+
+inductive AdmitErr | handshake | blacklisted | invalid | keyMismatch | self | duplicate | incompatible
+deriving Repr, DecidableEq
+
+/-- one inbound connection: `auth` is the key the remote proved in `MakeSecretConnection`, `ni` the NodeInfo it sent
+(`none`: nothing decodable).  Order of the tests as in `addPeer` today. -/
+def admitPeer (auth : Key) (ni : Option NodeInfoM) (s : SwitchState) : Except AdmitErr SwitchState :=
+  if auth == s.self then .error .handshake            -- MakeSecretConnection: "Peer presented our own public key"
+  else match ni with
+  | none => .error .handshake
+  | some ni =>
+    -- `peerNodeInfo.CachePeerID = ""` comes first: every `ID()` below is `idOf ni.pubKey`, whatever `ni.cacheId` was
+    if s.blacklist.contains (idOf ni.pubKey) then .error .blacklisted
+    else if !ni.valid then .error .invalid
+    else if ni.pubKey != auth then .error .keyMismatch   -- 7463840: claimed key must be the authenticated key
+    else if ni.pubKey == s.self then .error .self
+    else if s.peers.any (fun p => p.id == idOf ni.pubKey) then .error .duplicate
+    else if !ni.compatible then .error .incompatible
+    else if s.peers.any (fun p => p.id == idOf ni.pubKey) then .error .duplicate   -- PeerSet.Add (same test again)
+    else .ok { s with peers := s.peers ++ [⟨idOf ni.pubKey, auth⟩] }
+
+inductive SwOp
+  | conn (auth : Key) (ni : Option NodeInfoM)
+  | black (k : Key)        -- MarkBadNode
+  | drop (auth : Key)      -- the connection authenticated as `auth` ends; its peer is removed
+deriving Repr
+
+def SwitchState.step (s : SwitchState) : SwOp → SwitchState
+  | .conn auth ni => match admitPeer auth ni s with | .ok s' => s' | .error _ => s
+  | .black k => { s with blacklist := idOf k :: s.blacklist }
+  | .drop a => { s with peers := s.peers.filter (fun p => p.authKey != a) }
+
+def SwitchState.run (s : SwitchState) (ops : List SwOp) : SwitchState := ops.foldl SwitchState.step s
 
 end Model.Conn
